@@ -114,6 +114,9 @@ def map_families(kind, kt, vt, strat):
     pre = [S("BulkStore", lo=1, hi=thr + 1)] + [S(st, k, v()) for k in sorted(full)]
     add("F11-racers-grow", dict(full, k50=(FOCUS2, 50)), pre,
         [[S("LoadOrCompute", "k50", v())], [S("Compute", "k50", v(), fn="setifabsent")], [S("LoadOrCompute", "k50", v())]])
+    # F11b a Compute / LoadOrCompute whose user function is running (bucket locked) while another insert grows the table
+    add("F11b-compute-vs-grow", dict(full, k50=(FOCUS2, 50), k60=(OTHER, 3)), pre + [S(st, "k60", v())],
+        [[S("Compute", "k1", v(), fn="set"), S(ld, "k1")], [S(st, "k50", v())], [S("LoadOrCompute", "k61", v()), S("Compute", "k60", v(), fn="toggle")]], final=["k1", "k50", "k60", "k61"])
     # F12 Range || writers (C07)
     keys = {"k1": (FOCUS, 1), "k2": (FOCUS, 2), "k3": (OTHER, 3), "k4": (OTHER, 4)}
     add("F12-range-writers", keys, [S(st, "k1", v()), S(st, "k3", v())],
